@@ -1801,7 +1801,10 @@ func c17RebuiltOptionKeepsArguments(ctx *Ctx, r *Report) {
 			seen := 0
 			ast.Inspect(fd.Body, func(m ast.Node) bool {
 				cl, ok := m.(*ast.CompositeLit)
-				if !ok || namedOf(info.TypeOf(cl)) != optT {
+				if !ok {
+					return true
+				}
+				if t := info.TypeOf(cl); t == nil || namedOf(t) == nil || namedOf(t).Obj() != optT.Obj() {
 					return true
 				}
 				hasArgs, reusesPath := false, false
@@ -1818,10 +1821,17 @@ func c17RebuiltOptionKeepsArguments(ctx *Ctx, r *Report) {
 						hasArgs = true
 					}
 					if k.Name == "Assignments" {
-						txt := exprString(kv.Value)
-						if strings.Contains(txt, "ssignments[") && strings.Contains(txt, ".Path") {
-							reusesPath = true
-						}
+						// (types.ExprString elides literals: walk the value)
+						ast.Inspect(kv.Value, func(q ast.Node) bool {
+							if sel, ok := q.(*ast.SelectorExpr); ok && sel.Sel.Name == "Path" {
+								if ix, ok := ast.Unparen(sel.X).(*ast.IndexExpr); ok {
+									if ff := fieldOf(info, ix.X); ff != nil && ff.Name() == "Assignments" {
+										reusesPath = true
+									}
+								}
+							}
+							return true
+						})
 					}
 				}
 				if !reusesPath {
